@@ -122,7 +122,8 @@ def cs_bound(D):
 # harness components
 # ----------------------------------------------------------------------------------------------------------
 class _C12Mixin:
-    """cspec['c12'] = {'blocks': {'o|k': opts}, 'order': [keys], 'self': {'o': opts}, 'coloring': kwargs|None}
+    """cspec['c12'] = {'blocks': {'o|k': opts}, 'order': [keys], 'self': {'o': opts}, 'coloring': kwargs|None,
+                    'xblocks': {'o|k': opts}}
     Blocks listed there are declared with method fd/cs and their own options; all others keep the G style."""
 
     def _c12(self):
@@ -130,7 +131,9 @@ class _C12Mixin:
 
     def _omv_declare(self):
         cfg = self._c12()
-        blocks = cfg.get('blocks', {})
+        xblocks = cfg.get('xblocks') or {}     # uncolored approximated blocks beside a coloring (own method/options)
+        blocks = dict(cfg.get('blocks', {}))
+        blocks.update(xblocks)
         saved = self._omv_styles
         # 'matfree' style makes the parent declare nothing for that block
         self._omv_styles = {k: ('matfree' if k in blocks else v) for k, v in saved.items()}
@@ -138,6 +141,9 @@ class _C12Mixin:
             super()._omv_declare()
         finally:
             self._omv_styles = saved
+        for key in sorted(xblocks):
+            o, k = key.split('|')
+            self.declare_partials(o, k, **decl_kwargs(xblocks[key]))
         if cfg.get('via_coloring_only'):
             return
         if cfg.get('predeclare'):
@@ -145,7 +151,7 @@ class _C12Mixin:
             wrts, opts = cfg['predeclare']
             self.declare_partials('*', wrts, **decl_kwargs(opts))
             return
-        for key in cfg.get('order') or sorted(blocks):
+        for key in cfg.get('order') or sorted(cfg.get('blocks', {})):
             o, k = key.split('|')
             self.declare_partials(o, k, **decl_kwargs(blocks[key]))
 
